@@ -1,7 +1,7 @@
 """C18 — spinlock: mutual exclusion, FIFO ticket order, trylock never steals (structural part)."""
 from core import strip, is_field, order_ge, key_str
 from facts import AnalysisBroken
-from rules import (field_load, check_init, nodeset, ev, Unevaluable, atom_from, reach, atomic_ops, ret_const)
+from rules import (writer_kind, field_load, check_init, nodeset, ev, Unevaluable, atom_from, reach, atomic_ops, ret_const)
 from symword import Machine
 import stale
 
@@ -144,14 +144,14 @@ def run(ctx):
     o = ctx.ob("writers", "", "ticket/users/blob are written only by init (0), lock (users fetch-add), unlock (ticket store), trylock (blob CAS)",
                "any other writer breaks the ticket sequence")
     allowed = {("fiber_spinlock_init", "blob", "assign"), ("fiber_spinlock_lock", "users", "fetch_add"),
-               ("fiber_spinlock_unlock", "ticket", "store"), ("fiber_spinlock_trylock", "blob", "cas")}
+               ("fiber_spinlock_unlock", "ticket", "assign"), ("fiber_spinlock_trylock", "blob", "cas")}
     bad = None
     for fn in P.unique_functions():
         for rec, fld in ((CNT, "ticket"), (CNT, "users"), (REC, "blob")):
             for s in fn.stores_to(rec, fld):
                 if fn.key(s.target)[0] == "f" and Machine(fn, P).locate(s.target) is not None:
                     continue  # a private copy on the stack
-                kind = s.aop if s.kind in ("atomic", "sync") else "assign"
+                kind = writer_kind(s)
                 if (fn.name, fld, kind) not in allowed:
                     bad = bad or ("`%s` in %s" % (s.node.text, fn.name), s.node)
     o.check(bad is None, "writers table", "unexpected writer " + (bad[0] if bad else ""), site=bad[1] if bad else None, construct="spinlock writer")
